@@ -1,16 +1,20 @@
 ------------------------------ MODULE MC_C14 ------------------------------
+(* C14 generators: member-level sequences (Mode = "member") and trait-level sequences (Mode = "trait"), with the theorem that the
+   fold as implemented refines the declarative requirement checked on every sequence. *)
 EXTENDS O2ORepeat, TLC, Json
-CONSTANT MaxMembers
-VARIABLE ms
-Init == ms = <<>>
-Add(o, r, st, sk) == Len(ms) < MaxMembers /\ ms' = Append(ms, [own |-> o, rep |-> r, stop |-> st, skip |-> sk])
-Next == \E o \in SUBSET Cats, r \in {"-", "all", "map"}, st \in BOOLEAN, sk \in BOOLEAN : Add(o, r, st, sk)
-Spec == Init /\ [][Next]_ms
-SetSeq(S) == LET n == Cardinality(S) IN IF n = 0 THEN <<>> ELSE IF "child" \in S /\ "map" \in S THEN <<"child", "map">> ELSE IF "map" \in S THEN <<"map">> ELSE <<"child">>
-Jsonable == [j \in DOMAIN ms |-> [own |-> SetSeq(ms[j].own), rep |-> ms[j].rep, stop |-> ms[j].stop, skip |-> ms[j].skip]]
-CopiedJ == [j \in DOMAIN ms |-> LET C == Eff(ms, j) \ OwnInstrs(ms, j) IN
-               (IF \E x \in C : x[1] = "child" THEN <<[c |-> "child", t |-> (CHOOSE x \in C : x[1] = "child")[2]]>> ELSE <<>>) \o
-               (IF \E x \in C : x[1] = "map" THEN <<[c |-> "map", t |-> (CHOOSE x \in C : x[1] = "map")[2]]>> ELSE <<>>)]
-Emit == ms # <<>> => PrintT(<<"CASE", ToJson([ms |-> Jsonable, conflict |-> Conflict(ms), copied |-> CopiedJ])>>)
-FoldOk == FoldRefinesRequirement(ms)
+CONSTANTS Mode, MaxLen, RepChoices, TNames, OwnChoices
+VARIABLE s
+Init == s = <<>>
+\* RepChoices / OwnChoices are sets of category sets; {} as a repeat choice means `repeat` without categories
+AddM(o, r, cs, st, sk) == Len(s) < MaxLen /\ (~r => cs = {}) /\ s' = Append(s, [own |-> o, rep |-> r, cats |-> cs, stop |-> st, skip |-> sk])
+AddT(n, o, r, cs, st, sk) == Len(s) < MaxLen /\ (~r => cs = {}) /\ ~(st /\ sk /\ ~r) /\ s' = Append(s, [n |-> n, own |-> o, rep |-> r, cats |-> cs, stop |-> st, skip |-> sk])
+Next == IF Mode = "member"
+        THEN \E o \in OwnChoices, r \in BOOLEAN, cs \in RepChoices, st \in BOOLEAN, sk \in BOOLEAN : AddM(o, r, cs, st, sk)
+        ELSE \E n \in TNames, o \in OwnChoices, r \in BOOLEAN, cs \in RepChoices, st \in BOOLEAN, sk \in BOOLEAN : AddT(n, o, r, cs, st, sk)
+Spec == Init /\ [][Next]_s
+Pairs(S) == {[c |-> x[1], t |-> x[2]] : x \in S}
+EmitM == PrintT(<<"CASE", ToJson([ms |-> s, conflict |-> Conflict(s), eff |-> [j \in DOMAIN s |-> Pairs(Eff(s, j))]])>>)
+EmitT == PrintT(<<"CASE", ToJson([ts |-> s, conflict |-> TConflict(s), eff |-> [j \in DOMAIN s |-> Pairs(TEff(s, j))]])>>)
+Emit == s # <<>> => IF Mode = "member" THEN EmitM ELSE EmitT
+FoldOk == IF Mode = "member" THEN FoldRefinesRequirement(s) ELSE TFoldRefinesRequirement(s, TNames)
 =============================================================================
